@@ -1,9 +1,105 @@
 import Lean.Data.Json
-/-! Line-protocol handler for property C01 (model side of the correspondence). -/
-namespace Drv.C01
-open Lean
+import SpoxModel.Model.Prog
+/-!
+Line-protocol handler for C01: the model side of the translation validation.
 
-/-- One request (a JSON value) in, one response (a JSON value) out. -/
-def handle (_req : Json) : Json := Json.mkObj [("error", "unimplemented")]
+Request  `{"nodes": [[kind, label, [in…], [[args, results]…]]…]   (oldest first; kind 0 arg, 1 init, 2 op;
+                                                                   in = null | [node, idx])
+           "main":  [args, results],
+           "emit":  EG,            EG = [args, [[id, [EG…]]…], results]   (the nested emission
+                                   extracted from the real ModelProto)
+           "vals":  [[v…]…],       actual main inputs (several bindings)
+           "seed":  n,
+           "denote": bool}`        (false: skip `denoteG` — its cost is exponential in the number of
+                                   body-bearing nodes, the harness skips it for the few huge programs)
+Response `{"wf", "valid", "runs": [{"eval": [v…] | null, "denote": [v…]}…]}` where `eval` is
+`evalG` on the emission and `denote` is `denoteG` on the program, both under the fixed integer
+semantics `drvSem` (every label a different mixing function, bodies applied to derived arguments).
+-/
+namespace Drv.C01
+open Lean Prog
+
+def P : Nat := 1000003
+
+/-- An arbitrary but discriminating semantics: outputs mix label, inputs (positions and presence)
+    and the results of every body applied to arguments derived from the inputs. -/
+def drvSem : Sem Nat where
+  op l ins subs :=
+    let hIns := ins.foldl (fun acc o => (acc * 31 + (match o with | none => 7 | some v => v + 11)) % P) (l + 1)
+    let args := (List.range 6).map (fun i => (hIns * (i + 3) + i) % P)
+    let hSubs := subs.foldl
+      (fun acc f => ((f args).foldl (fun a v => (a * 37 + v + 1) % P) (acc * 41 + 5)) % P) hIns
+    (List.range 5).map (fun k => (hSubs * (k + 2) + k * k + l) % P)
+
+def parseRef (j : Json) : Except String VarRef := do
+  let a ← j.getArr?
+  let n ← (a.getD 0 Json.null).getNat?
+  let i ← (a.getD 1 Json.null).getNat?
+  return ⟨n, i⟩
+
+def parseOptRef (j : Json) : Except String (Option VarRef) :=
+  if j.isNull then return none else do return some (← parseRef j)
+
+def parseNats (j : Json) : Except String (List Nat) := do
+  let a ← j.getArr?
+  a.toList.mapM (·.getNat?)
+
+def parseRefs (j : Json) : Except String (List VarRef) := do
+  let a ← j.getArr?
+  a.toList.mapM parseRef
+
+def parsePGraph (j : Json) : Except String PGraph := do
+  let a ← j.getArr?
+  return ⟨← parseNats (a.getD 0 Json.null), ← parseRefs (a.getD 1 Json.null)⟩
+
+def parseNode (j : Json) : Except String PNode := do
+  let a ← j.getArr?
+  let k ← (a.getD 0 Json.null).getNat?
+  let l ← (a.getD 1 Json.null).getNat?
+  let ins ← (← (a.getD 2 Json.null).getArr?).toList.mapM parseOptRef
+  let subs ← (← (a.getD 3 Json.null).getArr?).toList.mapM parsePGraph
+  let kind ← match k with
+    | 0 => pure Kind.arg
+    | 1 => pure (Kind.init l)
+    | 2 => pure (Kind.op l)
+    | _ => throw "bad kind"
+  return ⟨kind, ins, subs⟩
+
+mutual
+partial def parseEG (j : Json) : Except String EGraph := do
+  let a ← j.getArr?
+  let args ← parseNats (a.getD 0 Json.null)
+  let body ← (← (a.getD 1 Json.null).getArr?).toList.mapM parseEN
+  let res ← parseRefs (a.getD 2 Json.null)
+  return .mk args body res
+partial def parseEN (j : Json) : Except String ENode := do
+  let a ← j.getArr?
+  let id ← (a.getD 0 Json.null).getNat?
+  let subs ← (← (a.getD 1 Json.null).getArr?).toList.mapM parseEG
+  return .mk id subs
+end
+
+def handle (req : Json) : Json :=
+  match (do
+    let nodesJ ← req.getObjValAs? (Array Json) "nodes"
+    let nodes ← nodesJ.toList.mapM parseNode
+    let prog := nodes.reverse
+    let main ← parsePGraph (← req.getObjVal? "main")
+    let e ← parseEG (← req.getObjVal? "emit")
+    let valsJ ← req.getObjValAs? (Array Json) "vals"
+    let valss ← valsJ.toList.mapM parseNats
+    let seed ← req.getObjValAs? Nat "seed"
+    let wantDenote := (req.getObjValAs? Bool "denote").toOption.getD true
+    let b : Nat → Nat := fun a => (seed * (a + 1) * 7919 + 13) % P
+    let runs := valss.map fun vals =>
+      let ev := evalG drvSem prog e (fun _ => none) vals
+      Json.mkObj [("eval", match ev with | none => Json.null | some l => toJson l),
+                  ("denote", if wantDenote then toJson (denoteG drvSem prog b main vals) else Json.null)]
+    return Json.mkObj [
+      ("wf", toJson (wfCheck prog)),
+      ("valid", toJson (validG prog e main [])),
+      ("runs", Json.arr runs.toArray)]) with
+  | .ok j => j
+  | .error e => Json.mkObj [("error", e)]
 
 end Drv.C01
